@@ -18,6 +18,18 @@ type guardAtom func(e ast.Expr) int
 // implies reports whether (e == polarity) implies the guard.
 func implies(e ast.Expr, polarity bool, atom guardAtom) bool {
 	e = ast.Unparen(e)
+	// a local that is nothing but another name (resetOnError := config.ResetOnError) is read as what it names
+	for hops := 0; hops < 4; hops++ {
+		id, ok := e.(*ast.Ident)
+		if !ok {
+			break
+		}
+		a := model.AliasOfIdent(id)
+		if a == nil {
+			break
+		}
+		e = ast.Unparen(a)
+	}
 	switch x := e.(type) {
 	case *ast.UnaryExpr:
 		if x.Op == token.NOT {
